@@ -19,7 +19,8 @@
     Why _partial: (i) MiniPy is a fragment of Python (no f-strings, statements, attribute access, arithmetic other than //,
     user classes with comparison methods) and its evaluator a model of CPython (validated against CPython on every run,
     never proved): e.g. use-set-literal needs no SEMANTIC guard on MiniPy, but inside an f-string replacement field the
-    display's `{` joins the field's `{` (finding kf_set_literal_fstring_braces, searched by the f-string family);
+    display's `{` joins the field's `{` (finding kf_set_literal_fstring_braces, searched by the f-string family; the same happens to invert-boolean-check when
+    `not ` is dropped in front of a display: finding kf_invert_fstring_braces, C01_kernel_invert_brace_first);
     (ii) the other refactoring codemods named by the property have no model: the harness only searches them;
     (iii) that the repaired folds/inversions never lose parentheses ([parses_as_built (rw e)]) is a premise checked per
     case, not a theorem. *)
@@ -116,3 +117,15 @@ Example C08_identity_example :
   let e := ENot true (ECmp true (EName 1) [(Is, EList [ci 1])]) in
   identity_guard rho e = true /\ rw_identity e <> e /\ meaning rho e = Val (VBool true).
 Proof. vm_compute. repeat split; try reflexivity. discriminate. Qed.
+
+(** str-concat-in-sequence-literals is NOT among the refactorings C08 speaks about (properties.jsonl: generator expressions, set
+    literals, walrus-if, combined calls, f-strings, imports, abc / logging deprecations, lazy logging, inverted boolean checks,
+    hasattr-call, `with` wrapping; SQL parameterization): it changes what the display means on purpose (["x" "x", "y"] is
+    ["xx", "y"], its rewrite ["x", "x", "y"]).  The fact is recorded; no C08 law is claimed, no finding is listed, and the
+    harness compares only the model with the real codemod for this kernel (C01 / C02 / C07 carry its theorems). *)
+From CM Require Import Proofs.StrConcatFacts.
+Theorem C08_str_concat_changes_meaning : forall cfg,
+  wf w_sc_meaning = true /\ meaning [] (rw_str_concat cfg w_sc_meaning) <> meaning [] w_sc_meaning /\
+  meaning [] w_sc_meaning = Val (VList [VStr (lit "xx"); VStr (lit "y")]).
+Proof. exact str_concat_changes_meaning. Qed.
+Print Assumptions C08_str_concat_changes_meaning.
